@@ -111,6 +111,16 @@ impl Gen<'_> {
         v
     }
     fn known(&mut self) -> MVal {
+        if self.dups && self.r.chance(1, 8) {
+            // the value that the next `fresh()` will produce: asked for before it exists
+            match self.elem {
+                ElemKind::U64 | ElemKind::U32 => return MVal::Int(100 + self.next_val + 1),
+                ElemKind::U8 => return MVal::Int(1 + ((self.next_val + 1) % 0xC0)),
+                ElemKind::Str => return MVal::Str(format!("s{}", self.next_val + 1)),
+                ElemKind::T24 | ElemKind::Big => return MVal::Obj(1000 + self.next_val + 1),
+                _ => {}
+            }
+        }
         if self.pool.is_empty() || self.r.chance(1, 5) {
             // a value that is nowhere
             match self.elem {
@@ -353,7 +363,7 @@ pub fn generate_c15(run_seed: u64, thorough: bool, faults: bool) -> ListDesc {
         m.heap.new_list(inner_init[k].clone());
     }
     let script_ok = |op: &Op| -> bool { !matches!(op, Op::IterConsume { .. } | Op::IterWithPush { .. } | Op::InnerPush { .. } | Op::FromVec { .. } | Op::CloneH { .. } | Op::DropH { .. } | Op::ToVec { .. } | Op::Iter { .. } | Op::Debug { .. }) };
-    let rust_ok = |op: &Op| -> bool { !matches!(op, Op::ForRebind { .. } | Op::PlusAssign { .. } | Op::GetMove { .. } | Op::TmpGet { .. } | Op::BranchLit { .. } | Op::Lit9 { .. } | Op::Join { .. } | Op::ForCount { .. } | Op::ForSum { .. } | Op::ForPush { .. } | Op::ForFind { .. }) };
+    let rust_ok = |op: &Op| -> bool { !matches!(op, Op::FromVecScript { .. } | Op::ForRebind { .. } | Op::PlusAssign { .. } | Op::GetMove { .. } | Op::TmpGet { .. } | Op::BranchLit { .. } | Op::Lit9 { .. } | Op::Join { .. } | Op::ForCount { .. } | Op::ForSum { .. } | Op::ForPush { .. } | Op::ForFind { .. }) };
     for _ in 0..nops {
         let filled: Vec<usize> = (0..nslots).filter(|&s| m.slots[s].is_some()).collect();
         let any = |g: &mut Gen| g.r.below(nslots as u64) as usize;
@@ -365,8 +375,16 @@ pub fn generate_c15(run_seed: u64, thorough: bool, faults: bool) -> ListDesc {
                 4 => Op::BranchLit { dst: any(&mut g), c: g.r.chance(1, 2), vals: (0..2).map(|_| fresh(&mut g)).collect(), shape: g.r.below(2) as u8 },
                 0 => Op::New { dst: any(&mut g) },
                 1 => {
-                    let n = *g.r.pick(&[0usize, 1, 2, 3, 4, 5, 8, 9, 15, 16, 17, 31, 32, 33]);
-                    Op::FromVec { dst: any(&mut g), vals: (0..n).map(|_| fresh(&mut g)).collect() }
+                    // a fresh list, or (one time in three) an element-wise copy of a list that exists:
+                    // equal contents in a distinct list, so that `==` has something to say yes to
+                    let vals: Vec<MVal> = if !filled.is_empty() && g.r.chance(1, 3) {
+                        let src = *g.r.pick(&filled);
+                        m.heap.lists[m.slots[src].unwrap()].clone()
+                    } else {
+                        let n = *g.r.pick(&[0usize, 1, 2, 3, 4, 5, 8, 9, 15, 16, 17, 31, 32, 33]);
+                        (0..n).map(|_| fresh(&mut g)).collect()
+                    };
+                    if g.r.chance(1, 3) { Op::FromVecScript { dst: any(&mut g), vals } } else { Op::FromVec { dst: any(&mut g), vals } }
                 }
                 2 => Op::Lit9 { dst: any(&mut g), vals: (0..3).map(|_| fresh(&mut g)).collect() },
                 _ => Op::Lit3 { dst: any(&mut g), vals: (0..3).map(|_| fresh(&mut g)).collect() },
@@ -545,6 +563,7 @@ pub fn op_label(op: &Op, origin: &Origin) -> String {
     let name = match op {
         Op::New { .. } => "new",
         Op::FromVec { .. } => "from_vec",
+        Op::FromVecScript { .. } => "new-and-pushes",
         Op::Lit3 { .. } => "literal",
         Op::Lit9 { .. } => "literal9",
         Op::BranchLit { .. } => "branch-literal",
@@ -994,7 +1013,7 @@ pub fn shrink(d: &ListDesc) -> Vec<ListDesc> {
     for t in 0..d.threads.len() {
         for k in 0..d.threads[t].ops.len() {
             let (op, origin) = &d.threads[t].ops[k];
-            if *origin == Origin::Script && !matches!(op, Op::Join { .. } | Op::ForCount { .. } | Op::ForSum { .. } | Op::ForPush { .. } | Op::ForFind { .. } | Op::Concat { plus: true, .. } | Op::Eq { ne: true, .. } | Op::Lit3 { .. } | Op::Lit9 { .. } | Op::BranchLit { .. } | Op::TmpGet { .. } | Op::GetMove { .. } | Op::ForRebind { .. } | Op::PlusAssign { .. }) {
+            if *origin == Origin::Script && !matches!(op, Op::Join { .. } | Op::ForCount { .. } | Op::ForSum { .. } | Op::ForPush { .. } | Op::ForFind { .. } | Op::Concat { plus: true, .. } | Op::Eq { ne: true, .. } | Op::Lit3 { .. } | Op::Lit9 { .. } | Op::BranchLit { .. } | Op::TmpGet { .. } | Op::GetMove { .. } | Op::ForRebind { .. } | Op::PlusAssign { .. } | Op::FromVecScript { .. }) {
                 let mut c = d.clone();
                 c.threads[t].ops[k].1 = Origin::Rust;
                 out.push(c);
